@@ -7,6 +7,9 @@ mod simos;
 
 use runner::{Options, Tier};
 
+#[global_allocator]
+static ALLOC: simos::CapAlloc = simos::CapAlloc;
+
 fn usage() -> ! {
     eprintln!("usage: check <Cxx> [--tier quick|thorough] [--runs N] [--workers N] [--replay FILE [--quiet]] [--hashes-out FILE] [--no-evidence]");
     std::process::exit(2)
@@ -56,6 +59,7 @@ fn main() {
     }
     warmup();
     runner::install_panic_hook();
+    simos::install_abort_handler();
     let args: Vec<String> = std::env::args().skip(1).collect();
     if args.is_empty() {
         usage();
